@@ -139,16 +139,16 @@ CHECKS = {
              "kernel_parse_ipv4 - parse_ipv4 (number parser with its 32-bit overflow guards, decimal fast path, 'keep the text "
              "when four pure decimals' shortcut) = Standard IPv4 parser then serializer; kernel_serialize_ipv4 / "
              "kernel_serialize_ipv6 - the serializers incl. longest-zero-run search and :: placement = the Standard's, for "
-             "every address (the 256 zero patterns are decided, pieces are symbolic); of parse_ipv6 the hex piece reader and "
-             "the final in-place move are proved. Spec theorems: ipv4Parse(ipv4Serialize a)=a for every a<2^32, "
+             "every address (the 256 zero patterns are decided, pieces are symbolic); kernel_parse_ipv6 - parse_ipv6 (hex piece "
+             "reader, embedded-IPv4 loop, main loop with its early exits, 45-byte guard, in-place move behind ::) = the "
+             "Standard's IPv6 parser on every input. Spec theorems: ipv4Parse(ipv4Serialize a)=a for every a<2^32, "
              "ipv6Parse(ipv6Serialize a)=a for every eight 16-bit pieces, forbidden host/domain tables equal the Standard's "
              "sets, parsed hosts are well-formed. L1: every kernel is called directly (both twins) and compared with the Lean "
              "model on generated texts; the implementation is compared with the Spec on href, host, port, host kind and "
              "has_valid_domain for hosts parsed, inherited and replaced by setters (incl. disguised IPv4 spellings and an "
              "AVX-512 pass), and every produced IP href is re-parsed.",
         design_ref="DESIGN.md §5 C10, §11.3",
-        note="parse_ipv6's main loop is modelled and run against the code but its equivalence with the Standard's IPv6 "
-             "parser is not proved (an unfinished proof of the embedded-IPv4 tail is kept in lean/wip, outside the build); "
+        note="all five kernels are proved equal to the Standard's definitions; what ties them to the C++ is the L1 run; "
              "the AVX-512 kernels are compared with the scalar ones in C18; host-kind truthfulness and domain processing are "
              "decided by correspondence."),
     "C19": dict(
